@@ -38,14 +38,14 @@ def run(ctx):
         keep, cnt = [], {}
         for c in cases:
             k = (c["kind"], c["h"])
-            if cnt.get(k, 0) < 12:
+            if cnt.get(k, 0) < 30:
                 cnt[k] = cnt.get(k, 0) + 1
                 keep.append(c)
         cases = keep
     # larger heights: same kinds, all positions, seeded indices
     for h in range(7, 13):
         nsib = h - 4
-        nidx = 6 if thorough else 2
+        nidx = 6 if thorough else 4
         for _ in range(nidx):
             idx = rnd.randrange(2 ** h)
             for kind in verdict:
@@ -56,11 +56,11 @@ def run(ctx):
                 elif kind == "capbit":
                     poss = range(4)
                 else:
-                    poss = range(15) if thorough else rnd.sample(range(15), 3)
+                    poss = range(15) if thorough else rnd.sample(range(15), 6)
                 for pos in poss:
                     cases.append({"h": h, "idx": idx, "kind": kind, "pos": pos, "expect": verdict[kind], "width": 0})
     # explicit leaf widths 1..140 on honest and leaf-corrupted openings
-    widths = range(1, 141) if thorough else [1, 2, 3, 4, 5, 8, 9, 10, 18, 19, 27, 28, 85, 135, 140] + rnd.sample(range(1, 141), 6)
+    widths = range(1, 141) if thorough else [1, 2, 3, 4, 5, 8, 9, 10, 18, 19, 27, 28, 85, 135, 140] + rnd.sample(range(1, 141), 20)
     for w in widths:
         for kind in ("none", "leaf"):
             h = rnd.randrange(4, 13)
